@@ -377,6 +377,20 @@ func TestVerifAxiomGetForToken(t *testing.T) {
 	if err != nil || r == nil || !reflect.ValueOf(r).IsNil() {
 		t.Fatalf("typed nil: %v %v", r, err)
 	}
+	// a pointer to a JSONPointable kind: nil is an error, otherwise the kind's own JSONLookup answers
+	if r, _, err := jsonpointer.GetForToken((*Schema)(nil), "type"); err == nil || r != nil {
+		t.Fatalf("nil *Schema: %v %v", r, err)
+	}
+	sch := &Schema{SchemaProps: SchemaProps{Title: "t"}, VendorExtensible: VendorExtensible{Extensions: Extensions{"x-a": 1}}, ExtraProps: map[string]interface{}{"k": "v"}}
+	for _, tok := range []string{"title", "x-a", "k", "nope", "$ref"} {
+		r1, _, e1 := jsonpointer.GetForToken(sch, tok)
+		r2, e2 := sch.JSONLookup(tok)
+		b1, _ := json.Marshal(r1)
+		b2, _ := json.Marshal(r2)
+		if (e1 == nil) != (e2 == nil) || string(b1) != string(b2) {
+			t.Fatalf("GetForToken(*Schema, %q) = %s, %v; JSONLookup = %s, %v", tok, b1, e1, b2, e2)
+		}
+	}
 }
 
 type verifGobProbe struct {
